@@ -321,11 +321,12 @@ def run_check(prop, tier='quick', seed=0, replay=None, out=sys.stdout):
         lines.append('KNOWN-FINDING: property=%s %s [key=%s; %d case(s) this run]' % (prop, kh['what'], key, kh['count']))
     replay_paths = []
     for key, ent in new_viol:
-        item = ent['items'][0] if ent['items'] else {'key': key}
+        items = ent['items'] or [{'key': key}]
+        item = max(items, key=lambda it: (it.get('severity') is not None, it.get('severity') or 0))
         path = write_replay(prop, item, tier, seed)
         replay_paths.append(path)
         lines.append('VIOLATION property=%s replay=%s' % (prop, path))
-        lines.append('  key=%s count=%d what=%s' % (key, ent['count'], item.get('what')))
+        lines.append('  key=%s count=%d max_severity=%s what=%s' % (key, ent['count'], ent.get('max_severity'), item.get('what')))
         lines.append('  observed=%s expected=%s' % (json.dumps(item.get('observed'))[:300], json.dumps(item.get('expected'))[:300]))
 
     inconclusive = []
@@ -376,6 +377,9 @@ def write_evidence(mod, prop, tier, seed, agg, known_hit, new_viol, inconclusive
         'observed_not_asserted': agg['notes'],
         'known_findings_hit': known_hit,
         'new_violation_keys': [k for k, _ in new_viol],
+        'new_violations': [{'key': k, 'count': e['count'], 'max_severity': e.get('max_severity'),
+                            'witness': (max(e['items'], key=lambda it: (it.get('severity') is not None, it.get('severity') or 0))
+                                        if e['items'] else None)} for k, e in new_viol],
         'shards': {'total': nshards, 'ok': agg['shards_ok'], 'watchdog': agg['shards_watchdog'], 'crashed': agg['shards_crash']},
         'verdict': 'violated' if new_viol else ('inconclusive' if inconclusive else 'held on what was observed'),
         'inconclusive_reasons': inconclusive,
